@@ -625,38 +625,87 @@ fn evs_json(evs: &[GEv]) -> Vec<J> {
     evs.iter().map(|g| g.json()).collect()
 }
 
-fn check_one(f: &Filt, evs: &[GEv], lane: Lane, rt: &tokio::runtime::Runtime, out: &mut Partial) -> Option<BTreeSet<i64>> {
-    let ft = f.txt();
+/// Observations of one filter cut out of a group run (filters `lo..hi` of the group program).
+fn slice_obs(o: &Obs, lo: usize, hi: usize) -> Obs {
+    Obs { w: o.w[lo..hi].to_vec(), f: o.f[lo..hi].to_vec(), l: o.l[lo..hi].to_vec(), v: o.v[lo..hi].to_vec(), shown: o.shown.clone() }
+}
+
+/// Check a group of filters over the same batch with one program (one parser call) per step.
+/// Returns the group's observations (for the lane self-check).
+fn check_group(fs: &[&Filt], evs: &[GEv], lane: Lane, rt: &tokio::runtime::Runtime, out: &mut Partial) -> Option<Obs> {
+    if fs.is_empty() {
+        return None;
+    }
     let events = interleave(evs);
-    out.eval();
-    out.add(&format!("filters_{}", lane.name()), 1);
-    let root = match run_all(rt, lane, &[f], &events, false) {
+    let root = match run_all(rt, lane, fs, &events, false) {
         Ok(o) => o,
         Err(RunErr::Rejected(e)) => {
-            out.add("programs_rejected", 1);
-            if out.samples.len() < 3 {
-                out.sample(json!({"rejected": program_text(&[ft.clone()], false), "error": e}));
+            if fs.len() > 1 {
+                // one filter may have spoiled the group: run them one by one
+                for f in fs {
+                    check_group(&[*f], evs, lane, rt, out);
+                }
+            } else {
+                out.add("programs_rejected", 1);
+                if out.samples.len() < 3 {
+                    out.sample(json!({"rejected": program_text(&[fs[0].txt()], false), "error": e}));
+                }
             }
             return None;
         }
         Err(RunErr::Panic(p, site)) => {
-            out.violation(&format!("panic/{}", site), "engine panicked evaluating a filter", json!({"filter": ft, "filter_tree": f.json(), "lane": lane.name(), "program": program_text(&[ft.clone()], false), "batch": evs_json(evs), "panic": p}));
+            if fs.len() > 1 {
+                for f in fs {
+                    check_group(&[*f], evs, lane, rt, out);
+                }
+            } else {
+                out.violation(&format!("panic/{}", site), "engine panicked evaluating a filter", json!({"filter": fs[0].txt(), "filter_tree": fs[0].json(), "lane": lane.name(), "program": program_text(&[fs[0].txt()], false), "batch": evs_json(evs), "panic": p}));
+            }
             return None;
         }
     };
-    let w = root.w[0].clone();
-    if !w.is_empty() && w.len() < evs.len() {
-        out.nontrivial(&(ft.clone(), evs.to_vec(), lane));
+    // which filters disagree somewhere?
+    let mut bad: Vec<usize> = vec![];
+    for (i, f) in fs.iter().enumerate() {
+        out.eval();
+        out.add(&format!("filters_{}", lane.name()), 1);
+        out.add("events_judged", evs.len() as u64);
+        out.add("placements_compared", 2);
+        let w = &root.w[i];
+        if !w.is_empty() && w.len() < evs.len() {
+            out.nontrivial(&(f.txt(), evs.to_vec(), lane));
+            if out.samples.len() < 2 {
+                out.sample(json!({"filter": f.txt(), "lane": lane.name(), "events": evs_json(evs), "where_accepted_uids": w}));
+            }
+        }
+        if &root.f[i] != w || &root.l[i] != w {
+            bad.push(i);
+        }
     }
-    out.add("events_judged", evs.len() as u64);
-    out.add("placements_compared", 2);
-    let disagreeing: Vec<Placement> = [Placement::First, Placement::Later].into_iter().filter(|p| root.seq(*p)[0] != w).collect();
-    if !disagreeing.is_empty() {
-        // per-node observations of the two paths (and of value/no-value in the VPL evaluator) for the whole batch
+    if bad.is_empty() {
+        return Some(root);
+    }
+    // per-node observations (both paths + value/no-value of the VPL evaluator) of every disagreeing filter, one program
+    let mut all_nodes: Vec<&Filt> = vec![];
+    let mut ranges: Vec<(usize, usize)> = vec![];
+    for &i in &bad {
+        let n = fs[i].nodes();
+        ranges.push((all_nodes.len(), all_nodes.len() + n.len()));
+        all_nodes.extend(n);
+    }
+    let node_obs = run_all(rt, lane, &all_nodes, &events, true).ok();
+    out.add("node_level_programs", 1);
+    for (bi, &i) in bad.iter().enumerate() {
+        let f = fs[i];
+        let ft = f.txt();
         let nodes = f.nodes();
-        let obs = run_all(rt, lane, &nodes, &events, true).ok().filter(|o| o.w[0] == w && o.f[0] == root.f[0] && o.l[0] == root.l[0]);
-        for p in disagreeing {
-            let s = &root.seq(p)[0];
+        let w = &root.w[i];
+        let obs = node_obs.as_ref().map(|o| slice_obs(o, ranges[bi].0, ranges[bi].1)).filter(|o| &o.w[0] == w && o.f[0] == root.f[i] && o.l[0] == root.l[i]);
+        for p in [Placement::First, Placement::Later] {
+            let s = &root.seq(p)[i];
+            if s == w {
+                continue;
+            }
             for g in evs {
                 let (inw, ins) = (w.contains(&g.uid), s.contains(&g.uid));
                 if inw == ins {
@@ -666,33 +715,53 @@ fn check_one(f: &Filt, evs: &[GEv], lane: Lane, rt: &tokio::runtime::Runtime, ou
                     Some(o) => classify(&nodes, o, p, 0, g),
                     None => ("unclassified".to_string(), ft.clone()),
                 };
-                out.violation(
-                    &sig,
-                    "the same filter accepts different events in .where and as a sequence-step filter",
-                    json!({
-                        "filter": ft,
-                        "filter_tree": f.json(),
-                        "lane": lane.name(),
-                        "minimal_disagreeing_subfilter": minimal,
-                        "placement": p.name(),
-                        "program": root.shown,
-                        "streams": {"where": "W0", "sequence": if p == Placement::First { "F0" } else { "L0" }},
-                        "event": g.json(),
-                        "stream": "Tick(uid 0) first, then every E of the batch followed by one Tick",
-                        "batch": evs_json(evs),
-                        "where_accepts": inw,
-                        "sequence_accepts": ins,
-                        "where_accepted_uids": w,
-                        "sequence_accepted_uids": s,
-                    }),
-                );
+                // a witness that will be stored is re-run with this filter alone, so that the replay is minimal and exact
+                let stored = out.violations.iter().filter(|v| v.0 == sig).count() < 3;
+                let witness = if stored {
+                    let alone = run_all(rt, lane, &[f], &events, false).ok();
+                    out.add("witnesses_rerun_alone", 1);
+                    match alone {
+                        Some(a) if a.w[0].contains(&g.uid) == inw && a.seq(p)[0].contains(&g.uid) == ins => json!({
+                            "filter": ft,
+                            "filter_tree": f.json(),
+                            "lane": lane.name(),
+                            "minimal_disagreeing_subfilter": minimal,
+                            "placement": p.name(),
+                            "program": a.shown,
+                            "streams": {"where": "W0", "sequence": if p == Placement::First { "F0" } else { "L0" }},
+                            "event": g.json(),
+                            "stream": "Tick(uid 0) first, then every E of the batch followed by one Tick",
+                            "batch": evs_json(evs),
+                            "where_accepts": inw,
+                            "sequence_accepts": ins,
+                            "where_accepted_uids": a.w[0],
+                            "sequence_accepted_uids": a.seq(p)[0],
+                        }),
+                        _ => json!({
+                            "filter": ft,
+                            "filter_tree": f.json(),
+                            "lane": lane.name(),
+                            "minimal_disagreeing_subfilter": minimal,
+                            "placement": p.name(),
+                            "note": "observed in a program holding several filters; the re-run with this filter alone did not show the same pair of answers",
+                            "program": root.shown,
+                            "streams": {"where": format!("W{}", i), "sequence": format!("{}{}", if p == Placement::First { "F" } else { "L" }, i)},
+                            "event": g.json(),
+                            "batch": evs_json(evs),
+                            "where_accepts": inw,
+                            "sequence_accepts": ins,
+                            "where_accepted_uids": w,
+                            "sequence_accepted_uids": s,
+                        }),
+                    }
+                } else {
+                    J::Null
+                };
+                out.violation(&sig, "the same filter accepts different events in .where and as a sequence-step filter", witness);
             }
         }
     }
-    if out.samples.len() < 2 && !w.is_empty() && w.len() < evs.len() {
-        out.sample(json!({"filter": ft, "lane": lane.name(), "events": evs_json(evs), "where_accepted_uids": w}));
-    }
-    Some(w)
+    Some(root)
 }
 
 fn contains_not(e: &Expr) -> bool {
@@ -769,39 +838,47 @@ fn main() {
     rep.assume("the arrow form has no filter on its first step in the grammar; the first-step placement uses the sequence(...) form");
     rep.assume("the parser currently parses `not X` as `X` in all three expression grammars (counter text_not_dropped_by_parser), so a filter containing `not` cannot reach either evaluator from program text; such filters are placed by substituting Expr::Unary{Not} into the AST of the same programs parsed with a placeholder filter, and loaded through Engine::load — signatures `not/*` come from that lane only");
     let threads = ncpu();
-    let filters = args.pick(1600usize, 80_000usize);
+    let filters = args.pick(6000usize, 200_000usize);
     let per_thread = filters / threads + 1;
     let batch = args.pick(10usize, 16usize);
     let parts = parallel(threads, args.seed ^ 0xC09, move |_ti, mut rng| {
         let mut out = Partial::default();
         let rt = rt();
-        for k in 0..per_thread {
-            let nf = 1 + rng.below(3);
-            let depth = 1 + rng.below(3);
-            let f = gen_filt(&mut rng, depth, nf);
-            let evs = gen_batch(&mut rng, batch, nf);
-            if f.has_not() {
-                // what does the parser make of the text?
-                if let Ok(p) = varpulis_parser::parse(&format!("stream W0 = E.where({}).emit(u: uid)\n", f.txt())) {
-                    let kept = p.statements.iter().any(|s| match &s.node {
-                        Stmt::StreamDecl { ops, .. } => ops.iter().any(|o| matches!(o, StreamOp::Where(e) if contains_not(e))),
-                        _ => false,
-                    });
-                    out.add(if kept { "text_not_kept_by_parser" } else { "text_not_dropped_by_parser" }, 1);
+        const GROUP: usize = 8;
+        let groups = per_thread / GROUP + 1;
+        for k in 0..groups {
+            // GROUP filters over one batch of events (all three fields drawn; a filter uses its first 1-3)
+            let filts: Vec<Filt> = (0..GROUP)
+                .map(|_| {
+                    let nf = 1 + rng.below(3);
+                    let depth = 1 + rng.below(3);
+                    gen_filt(&mut rng, depth, nf)
+                })
+                .collect();
+            let evs = gen_batch(&mut rng, batch, 3);
+            let with_not: Vec<&Filt> = filts.iter().filter(|f| f.has_not()).collect();
+            let plain: Vec<&Filt> = filts.iter().filter(|f| !f.has_not()).collect();
+            // filters without `not`: program text
+            let t = check_group(&plain, &evs, Lane::Text, &rt, &mut out);
+            // filters with `not`: AST substitution (the parser drops `not`, see assumptions)
+            check_group(&with_not, &evs, Lane::Ast, &rt, &mut out);
+            if k % 4 == 0 {
+                // the text as the parser reads it today (i.e. without the `not`s) must agree with itself too
+                if let Some(f) = with_not.first() {
+                    if let Ok(p) = varpulis_parser::parse(&format!("stream W0 = E.where({}).emit(u: uid)\n", f.txt())) {
+                        let kept = p.statements.iter().any(|s| match &s.node {
+                            Stmt::StreamDecl { ops, .. } => ops.iter().any(|o| matches!(o, StreamOp::Where(e) if contains_not(e))),
+                            _ => false,
+                        });
+                        out.add(if kept { "text_not_kept_by_parser" } else { "text_not_dropped_by_parser" }, 1);
+                    }
                 }
-                check_one(&f, &evs, Lane::Ast, &rt, &mut out);
-                if k % 4 == 0 {
-                    check_one(&f, &evs, Lane::Text, &rt, &mut out);
-                }
-            } else {
-                let w = check_one(&f, &evs, Lane::Text, &rt, &mut out);
-                if k % 8 == 0 {
-                    // harness self-check: for not-free filters the AST lane must be the same program as the text lane
-                    let events = interleave(&evs);
-                    let a = run_all(&rt, Lane::Ast, &[&f], &events, false).ok().map(|o| o.w[0].clone());
-                    out.add("lane_equivalence_checked", 1);
-                    if a != w {
-                        out.inconclusive(&format!("AST-substitution lane and text lane differ for the not-free filter `{}`", f.txt()));
+                check_group(&with_not, &evs, Lane::Text, &rt, &mut out);
+                // harness self-check: for not-free filters the AST lane must be the same program as the text lane
+                if let (Some(t), Ok(a)) = (&t, run_all(&rt, Lane::Ast, &plain, &interleave(&evs), false)) {
+                    out.add("lane_equivalence_checked", plain.len() as u64);
+                    if a.w != t.w || a.f != t.f || a.l != t.l {
+                        out.inconclusive("AST-substitution lane and text lane differ for a group of not-free filters");
                     }
                 }
             }
